@@ -21,7 +21,8 @@ RULE = ('cases = ints (exhaustive [-2^17,2^17]; 2^k+d, |d|<=3, both signs; '
         'same values; distinct = by value/bit pattern (and op for instruction '
         'cases); non-trivial = |n| >= 2^53 or within 3 of a power of 256, or a '
         'non-finite / subnormal / NaN float pattern, or an instruction case '
-        'with such an operand')
+        'with such an operand'
+        ' [plus operands up to 2^520000 under tight item limits, count-producing instructions (SIZE, DEPTH, READ_CACHE_SIZE) around byte and sign boundaries, and decimal LITERALS assembled and decoded (push / push1 / push2 / div_int / mod_int d<n>, n up to 8192 bits)]')
 ASSUMPTIONS = [
     'Python int arithmetic and int.from_bytes(signed=True) are the reference',
     'IEEE-754 binary32 decoded by hand (sign/exponent/mantissa) is the float '
